@@ -273,6 +273,8 @@ where
         let settled = self
             .send_transfer_without_modifying_unsettled_map(writer, transfer, payload)
             .await?;
+        #[cfg(fe2o3_amqp_verif)]
+        crate::verif::sched_point("sender-transfer-handed-over").await;
         match settled {
             true => Ok(Settlement::Settled(delivery_tag)),
             // If not set on the first (or only) transfer for a (multi-transfer)
